@@ -16,9 +16,11 @@ def sh(cmd, cwd=None, timeout=3000):
 
 def main():
     pid, i = sys.argv[1], sys.argv[2]
-    src = f"/tmp/mut/{pid}-out"
+    opts = dict(a.lstrip("-").split("=", 1) for a in sys.argv[3:] if a.startswith("--") and "=" in a)
+    sys.argv = [a for a in sys.argv if not a.startswith("--")]
+    src = f"/tmp/mut/{pid}-{opts.get('out', 'out')}"
     wt = f"/tmp/mut/{pid}"
-    dst = os.path.join(ROOT, "seeded", f"{pid}-{i}")
+    dst = os.path.join(ROOT, "seeded", f"{pid}-{opts.get('as', i)}")
     if os.path.exists(dst):
         shutil.rmtree(dst)
     os.makedirs(dst)
@@ -51,7 +53,7 @@ def main():
     ok = (rc0 == 0 and rc1 != 0 and passed == 142 and not failed and rcb == 0)
     meta["confirmed_by_lead"] = {"ok": ok, "demo_cmd": demo_cmd, "log": log}
     json.dump(meta, open(f"{dst}/meta.json", "w"), indent=1)
-    print(f"{pid}-{i}: confirmed={ok} demo_without={rc0} demo_with={rc1} tests_passed={passed} failed={failed} build={rcb}")
+    print(f"{os.path.basename(dst)}: confirmed={ok} demo_without={rc0} demo_with={rc1} tests_passed={passed} failed={failed} build={rcb}")
     if not ok:
         for l in log:
             print("  ", l)
